@@ -225,11 +225,21 @@ func (m *Machine) ProcessPacket(out, packet []byte) ([]byte, *Result, error) {
 	// noise returns (cs1, cs2) where cs1 is the initiator->responder cipher.
 	// For 3-message patterns where a responder finishes by reading the final
 	// message, this ordering would be wrong; revisit when XX/pqIX lands.
+	// ChannelBinding returns the live handshake hash, so take a copy to compare
+	// against if ReadMessage fails.
+	hashBefore := bytes.Clone(m.hs.ChannelBinding())
 	msg, eKey, dKey, err := m.hs.ReadMessage(nil, packet[header.Len:])
 	if err != nil {
 		// Noise ReadMessage failed. The noise library checkpoints and rolls back
-		// on failure, so the Machine is still alive. The caller can retry with
-		// a different packet.
+		// on decryption failures, so the Machine is usually still alive and the
+		// caller can retry with a different packet. It does not roll back when it
+		// bails out after already mixing the peer's keys into the handshake hash
+		// (a message that ends partway through, or an ephemeral key the DH
+		// rejects). The hash then no longer matches the peer's and no later
+		// message can authenticate, so the Machine is unrecoverable.
+		if !bytes.Equal(hashBefore, m.hs.ChannelBinding()) {
+			m.failed = true
+		}
 		return nil, nil, fmt.Errorf("noise ReadMessage: %w", err)
 	}
 
